@@ -25,6 +25,10 @@ def build_problem(ps):
     if kind == "boxdomain":
         _, _, n, m, kw = ps
         return gen.boxdomain_problem(rng, n, m, **kw)
+    if kind == "logdomain":
+        return gen.logdomain_problem(rng, ps[2], cons=bool(ps[3]))
+    if kind == "equalmult":
+        return gen.equal_multiplier_problem(rng, ps[2])
     if kind == "infeasible":
         return gen.infeasible_problem(rng, ps[2])
     if kind == "unbounded":
@@ -194,11 +198,36 @@ def run_group(gs):
     return {"events": evs, "info": info, "spec": gs}
 
 
+class GroupTimeout(Exception):
+    pass
+
+
+def _alarm(signum, frame):
+    raise GroupTimeout()
+
+
 def _safe_run_group(gs):
+    import signal
+
+    old = None
+    try:
+        old = signal.signal(signal.SIGALRM, _alarm)
+        signal.alarm(int(gs.get("timeout", 300)))
+    except Exception:
+        old = None
     try:
         return run_group(gs)
+    except GroupTimeout:
+        return {"error": "group timed out (a solve did not finish): " + json.dumps(_jsonable(gs))[:600], "spec": gs}
     except Exception:
         return {"error": traceback.format_exc(), "spec": gs}
+    finally:
+        try:
+            signal.alarm(0)
+            if old is not None:
+                signal.signal(signal.SIGALRM, old)
+        except Exception:
+            pass
 
 
 def run_groups(gspecs, workers=14):
